@@ -258,6 +258,33 @@ func ruleCLN1(c *Ctx) {
 			}
 		}
 		sort.Strings(wrong)
+		// ... and on every path: a scalar copied only in one branch is lost on the others (e.g. in the branch that takes a
+		// child from the clone table instead of cloning it)
+		var partial []string
+		for f := range need {
+			if f.Name() == "AstID" || isNodeTyped(f.Type()) || len(stores[f]) == 0 {
+				continue
+			}
+			if _, ex := cloneExempt[n+"."+f.Name()]; ex {
+				continue
+			}
+			if _, isSlice := f.Type().Underlying().(*types.Slice); isSlice {
+				continue
+			}
+			if _, isMap := f.Type().Underlying().(*types.Map); isMap {
+				continue
+			}
+			ff := f
+			t, _ := reach(fn, al, func(in ssa.Instruction) bool { _, isRet := in.(*ssa.Return); return isRet }, func(in ssa.Instruction) bool {
+				sf, base, _ := fieldStore(in)
+				return sf == ff && base == ssa.Value(al)
+			}, nil)
+			if t != nil {
+				partial = append(partial, f.Name())
+			}
+		}
+		sort.Strings(partial)
+		c.Check(len(partial) == 0, n+".Clone / semantic scalars are copied on every path", p.Pos(fn.Pos()), "each scalar store dominates all returns", fmt.Sprintf("fields %v are copied only on some paths through Clone: on the others (typically when a child is already in the clone table) the clone keeps the zero value and differs from its blueprint", partial))
 		c.Check(len(missing) == 0 && len(wrong) == 0, n+".Clone / copies every semantic field", p.Pos(fn.Pos()), "semantic fields "+strings.Join(sortedFieldNames(need), ",")+" assigned from their namesakes",
 			fmt.Sprintf("clone loses or mis-copies fields: missing=%v notCopiedFromNamesake=%v (an instance would behave differently from its blueprint)", missing, wrong))
 		if n == "RuleEntry" {
